@@ -633,6 +633,139 @@ def compare_dyn(c, r):
     return dis
 
 
+# ------------------------------------------------------------------------------------ every RF map main() can build + tracking
+
+class RfCase:
+    """RFKickMap / DynamicRFKickMap, linear or sinusoidal constructor, driven as main() drives the RF map
+    (`rfm->apply(); rfm->applyToAll(ps)`) over several steps, a unit hat-blob on particle 0 (harness command rfblob)"""
+
+    def __init__(self, cid, n, it, linear, dynamic, angle, revpart, vrf, v0, frf, phasespread, amplspread, modampl, modinc, steps, seed,
+                 renew, parts, qmax=6.0):
+        self.cid, self.n, self.it, self.linear, self.dynamic, self.angle, self.revpart = cid, n, it, linear, dynamic, angle, revpart
+        self.vrf, self.v0, self.frf, self.phasespread, self.amplspread, self.modampl, self.modinc = vrf, v0, frf, phasespread, amplspread, modampl, modinc
+        self.steps, self.seed, self.renew, self.parts, self.qmax = steps, seed, renew, parts, qmax
+
+    def style(self):
+        return "%s %s RF" % ("dynamic" if self.dynamic else "static", "linear" if self.linear else "sinusoidal") + (
+            "" if not self.dynamic else " (%s)" % "+".join(w for w, v in (("phase modulation", self.modampl), ("phase noise", self.phasespread),
+                                                                         ("amplitude noise", self.amplspread)) if v))
+
+    def impl_text(self):
+        return "rfblob %s %d %d %s %s %s %s %d %d %s %r %r %r %r %s %s %s %r %d %d %d %d %s\n" % (
+            self.cid, self.n, self.it, fhex(-self.qmax), fhex(self.qmax), fhex(-self.qmax), fhex(self.qmax), self.linear, self.dynamic,
+            fhex(self.angle), self.revpart, self.vrf, self.v0, self.frf, fhex(self.phasespread), fhex(self.amplspread), fhex(self.modampl),
+            self.modinc, self.steps, self.seed, self.renew, len(self.parts), " ".join("%s %s" % (fhex(x), fhex(y)) for x, y in self.parts))
+
+    def replay(self):
+        return dict(kind="rfblob", id=self.cid, n=self.n, it=self.it, linear=self.linear, dynamic=self.dynamic, angle=fhex(self.angle),
+                    revpart=self.revpart, vrf=self.vrf, v0=self.v0, frf=self.frf, phasespread=fhex(self.phasespread),
+                    amplspread=fhex(self.amplspread), modampl=fhex(self.modampl), modinc=self.modinc, steps=self.steps, seed=self.seed,
+                    renew=self.renew, qmax=fhex(self.qmax), parts=[[fhex(x), fhex(y)] for x, y in self.parts], setup=self.style())
+
+
+def rf_from_replay(rp):
+    fh = float.fromhex
+    return RfCase(rp["id"], rp["n"], rp["it"], rp["linear"], rp["dynamic"], fh(rp["angle"]), rp["revpart"], rp["vrf"], rp["v0"], rp["frf"],
+                  fh(rp["phasespread"]), fh(rp["amplspread"]), fh(rp["modampl"]), rp["modinc"], rp["steps"], rp["seed"], rp["renew"],
+                  [(fh(x), fh(y)) for x, y in rp["parts"]], fh(rp.get("qmax", fhex(6.0))))
+
+
+# (linear, dynamic, phase modulation, phase noise, amplitude noise): the four constructors of main(); the dynamic sinusoidal
+# map with each source of time dependence alone and all together
+RF_SETUPS = [(0, 1, 1, 0, 0), (0, 1, 0, 1, 0), (0, 1, 0, 0, 1), (0, 1, 1, 1, 1), (0, 0, 0, 0, 0), (1, 0, 0, 0, 0), (1, 1, 1, 0, 0), (1, 1, 0, 1, 1)]
+
+
+def gen_rf(ctx, count, prefix="r"):
+    rng = ctx.rng
+    cases = []
+    for i in range(count):
+        lin, dyn, md, pn, an = RF_SETUPS[i % len(RF_SETUPS)]
+        n = rng.choice([64, 72, 80])
+        it = rng.choice([3, 4])
+        delta = 12.0 / (n - 1)
+        angle = f32(rng.uniform(0.05, 0.2))
+        cells = rng.uniform(1.0, 2.5)                          # amplitude of the sinusoidal kick in mesh cells
+        vrf = cells * delta
+        v0 = vrf * rng.uniform(0.0, 0.3)
+        percell = rng.uniform(0.05, 0.12)                      # RF phase per mesh cell (sinusoidal); linear: of the same order
+        frf = 4.77e7 * percell / delta                         # bl2phase = 2 pi f_RF / c  (axis scale 1)
+        modampl = f32(rng.uniform(0.3, 1.0)) if md else 0.0    # rad
+        modinc = rng.choice([0.25, 0.2, 0.31, 0.125])
+        phasespread = f32(rng.uniform(0.2, 0.6)) if pn else 0.0
+        amplspread = f32(rng.uniform(0.1, 0.3)) if an else 0.0
+        if lin:
+            # tan(angle)*dphase/bl2phase/delta cells per step: keep the phase excursion at a few cells
+            modampl, phasespread = f32(modampl * 0.3), f32(phasespread * 0.3)
+        steps = rng.randint(8, 14)
+        c0 = (n - 1) / 2.0
+        parts = [(f32(c0 + rng.uniform(-5, 5)), f32(c0 + rng.uniform(-3, 3)))]
+        if rng.random() < 0.3:
+            parts[0] = (float(int(parts[0][0])), parts[0][1])  # on a mesh column
+        parts += [(f32(rng.uniform(0, n - 1)), f32(rng.uniform(0, n - 1))) for _ in range(rng.randint(2, 5))]
+        parts += [(0.0, float(n - 1)), (float(n - 1), 0.0)]
+        cases.append(RfCase("%s%d" % (prefix, i), n, it, lin, dyn, angle, 1.0, vrf, v0, frf, phasespread, amplspread, modampl, modinc, steps,
+                            rng.randint(1, 2 ** 31 - 1), rng.choice([3, 4]), parts))
+        ctx.count("rfblob:" + cases[-1].style())
+    return cases
+
+
+def run_rf(ctx, cases):
+    """implementation (rfblob) and, per step, the model: KickMap::applyTo as generated (gen_kick_y) over the table the grid has
+    just been kicked with (`offs` of the same step), from the implementation's particles before applyToAll"""
+    tg = ctx.build(harness=("impl_track",))
+    rc, out, err = run_driver(tg["impl_track"], "".join(c.impl_text() for c in cases))
+    if rc != 0:
+        raise RuntimeError("impl_track (rfblob) failed rc=%d: %s" % (rc, err[-2000:]))
+    impl = parse_cases(out)
+    res = {}
+    mtext = []
+    for c in cases:
+        r = impl[c.cid]
+        d = dict(rf=[parse_c(t) for t in r["rf"][0]], queue=_pairs(r["queue"][0]) if r.get("queue") and r["queue"][0] else [],
+                 offs=[[parse_c(t) for t in l] for l in r["offs"]], pre=[_pairs(l) for l in r["pre"]],
+                 rfpos=[_pairs(l) for l in r["rfpos"]], rfmom=[[parse_c(t) for t in l] for l in r["rfmom"]])
+        res[c.cid] = d
+        d["mkeys"] = []
+        for k in range(min(c.steps, len(d["offs"]))):
+            if not _finite(d["pre"][k]) or any(isinstance(v, str) for v in d["offs"][k]):
+                break
+            if any(not (0 <= x <= c.n - 1 and 0 <= y <= c.n - 1) for x, y in d["pre"][k]):
+                break
+            mtext.append("track %s.%d %d %d 1\n%s\nkick y %s\n" % (c.cid, k, c.n, len(c.parts),
+                                                                 " ".join("%s %s" % (qtok(x), qtok(y)) for x, y in d["pre"][k]),
+                                                                 " ".join(qtok(v) for v in d["offs"][k])))
+            d["mkeys"].append(k)
+    rc, out, err = run_driver(vp_coq.model_path("track"), "".join(mtext))
+    if rc != 0:
+        raise RuntimeError("model_track (rfblob) failed rc=%d: %s" % (rc, err[-2000:]))
+    model = parse_cases(out)
+    for c in cases:
+        d = res[c.cid]
+        d["mpos"] = {}
+        for k in d["mkeys"]:
+            v = model.get("%s.%d" % (c.cid, k))
+            if v is None or "gpos" not in v:
+                continue
+            g = [t if t in ("nan", "inf", "-inf") else parse_q(t) for t in v["gpos"][0]]
+            d["mpos"][k] = [(g[i], g[i + 1]) for i in range(0, len(g), 2)]
+    return res
+
+
+def compare_rf(c, r):
+    """every particle after `rfm->applyToAll` against the generated KickMap::applyTo over the SAME step's table"""
+    dis = []
+    for k in r["mkeys"]:
+        if k not in r["mpos"]:
+            return [dict(what="rfblob-model-missing", step=k)]
+        omax = max(abs(v) for v in r["offs"][k])
+        tol = 16 * U * (c.n + omax)
+        for pi, ((ix, iy), (mx, my)) in enumerate(zip(r["rfpos"][k], r["mpos"][k])):
+            if isinstance(ix, str) or isinstance(iy, str) or isinstance(mx, str) or isinstance(my, str) or ix != mx or abs(iy - my) > tol:
+                dis.append(dict(what="rfblob-position", setup=c.style(), step=k, particle=pi, impl=[str(ix), str(iy)], model=[str(mx), str(my)]))
+                return dis
+    return dis
+
+
 # ------------------------------------------------------------------------------------ loading of the tracking file
 
 def run_load(ctx, count):
